@@ -62,7 +62,7 @@ def check_program(ctx, prog, layout, offsets, scratch, roles=QUERY_ROLES):
     import dataclasses
 
     # C05 is about scoping; statement splitting / joining is C13's subject
-    layout = dataclasses.replace(layout, split_every=0, join_every=0, indent=min(layout.indent, 4))
+    layout = dataclasses.replace(layout, split_every=0, join_every=0)
     r = fmodel.render(prog, layout)
     fws.gfortran_sample(ctx, r)
     root = os.path.join(scratch, "c05_ws")
@@ -196,7 +196,7 @@ def run(ctx):
         import dataclasses
 
         prog, layout, offsets = v
-        r = fmodel.render(prog, dataclasses.replace(layout, split_every=0, join_every=0, indent=min(layout.indent, 4)))
+        r = fmodel.render(prog, dataclasses.replace(layout, split_every=0, join_every=0))
         return {"files": r.files}
 
     ctx.hyp(case_st, oracle, max_examples=ctx.n(100, 1500), case_of=case_of, collect=bool(os.environ.get('VERIF_COLLECT')))
